@@ -354,7 +354,10 @@ class LinearLeastSquares(App):
         with self.y_device:
             A = self.A
 
-        if self.lamda > 0:
+        if self.lamda > 0 and self.G is not None:
+            gamma_primal = self.lamda
+            proxg = prox.L2Reg(self.x.shape, self.lamda, y=self.z)
+        elif self.lamda > 0:
             gamma_primal = self.lamda
             proxg = prox.L2Reg(
                 self.x.shape, self.lamda, y=self.z, proxh=self.proxg
@@ -373,9 +376,15 @@ class LinearLeastSquares(App):
             else:
                 A = linop.Vstack([A, self.G])
                 proxf1c = prox.L2Reg(self.y.shape, 1, y=-self.y)
-                proxf2c = prox.Conj(proxg)
+                if self.proxg is None:
+                    proxf2c = prox.Conj(prox.NoOp(self.G.oshape))
+                else:
+                    proxf2c = prox.Conj(self.proxg)
+
                 proxfc = prox.Stack([proxf1c, proxf2c])
-                proxg = prox.NoOp(self.x.shape)
+                if self.lamda <= 0:
+                    proxg = prox.NoOp(self.x.shape)
+
                 gamma_dual = 0
 
         if self.tau is None:
